@@ -63,6 +63,12 @@ pub trait VAdapters<T>: Sized + vstd::view::View<V = Seq<T>> {
     fn vreduce<F: Fn(T, T) -> T>(self, f: F) -> (r: Option<T>)
         requires forall|a: T, b: T| #[trigger] f.requires((a, b)),
         ensures (r is None) == (self@.len() == 0), r is Some ==> reduce_rel(f, self@, r->Some_0);
+    /// `find_map` (not used by the code as it is): the value f yields for the FIRST element it yields one for
+    fn vfind_map<U, F: Fn(T) -> Option<U>>(self, f: F) -> (r: Option<U>)
+        requires forall|i: int| 0 <= i < self@.len() ==> #[trigger] f.requires((self@[i],)),
+        ensures
+            r is Some ==> exists|i: int| 0 <= i < self@.len() && #[trigger] f.ensures((self@[i],), r) && forall|j: int| 0 <= j < i ==> #[trigger] f.ensures((self@[j],), None),
+            r is None ==> forall|i: int| 0 <= i < self@.len() ==> #[trigger] f.ensures((self@[i],), None);
 }
 pub open spec fn kept_if_some<T, U, F: Fn(T) -> Option<U>>(f: F, x: T, r: Seq<U>) -> bool {
     exists|y: Option<U>| #[trigger] f.ensures((x,), y) && (y is Some ==> r.contains(y->Some_0))
@@ -83,6 +89,8 @@ impl<T> VAdapters<T> for Vec<T> {
     fn vfilter_map<U, F: Fn(T) -> Option<U>>(self, f: F) -> (r: Vec<U>) { self.into_iter().filter_map(f).collect() }
     #[verifier::external_body]
     fn vreduce<F: Fn(T, T) -> T>(self, f: F) -> (r: Option<T>) { self.into_iter().reduce(f) }
+    #[verifier::external_body]
+    fn vfind_map<U, F: Fn(T) -> Option<U>>(self, f: F) -> (r: Option<U>) { self.into_iter().find_map(f) }
 }
 /// PROVED (induction): a fold with a function that returns the dt_le-greater of its two arguments yields a member that is
 /// above every element
@@ -164,7 +172,7 @@ pub mod timestamps {
     //@ fn src/writers/file_log_writer/state/timestamps.rs fn latest_timestamp_file
     //@   ret r
     //@   props C06,C14
-    //@   rule R16 3
+    //@   rule R16 *
     //@   rule R16b 1
     //@   req[latest.pre.perm] forall|f: InfixFilter, s: Option<Seq<char>>| #[trigger] lof_ok(f, s) <==> (!rotate && f is Numbrs && s == (match config.file_spec.o_suffix { Some(x) => Some(x@), None => None }))
     //@   closure ~ts_infix_from_path(&path ## sig |path: PathBuf| -> (r: String)
